@@ -52,7 +52,7 @@ fn gen_history(t: &mut Tape) -> History {
 }
 
 fn first_subdir(spec: &[Entry]) -> Option<String> {
-    spec.iter().find(|e| matches!(e.kind, Kind::Dir(_))).map(|e| e.name.clone())
+    spec.iter().find(|e| matches!(e.kind, Kind::Dir(_) | Kind::Link(_))).map(|e| e.name.clone())
 }
 
 fn run_history(env: &Env, h: &History, st: &mut Stats) -> Vec<Violation> {
